@@ -2,7 +2,7 @@ from __future__ import print_function
 import logging
 from ast import Name as AstName, Attribute, Call
 
-from .util import np
+from .util import np, cycle_guard
 from .compat import HAS_CONSTANTS
 from .name import (ImportedName, MultiName, MultiValue, Object,
                    RuntimeName, Resolvable, AssignedName, Callable,
@@ -32,10 +32,14 @@ class EvalCtx(object):
         self.project = project
         self.level = 0
         self.nodes = set()  # type: set[t.Hashable]
+        cycle_guard.epoch += 1
 
     def evaluate(self, node):
         # type: (AST | Object | Name | None) -> Object | None
-        if node is None or node in self.nodes:
+        if node is None:
+            return None
+        if node in self.nodes:
+            cycle_guard.fired += 1
             return None
         self.nodes.add(node)
         self.level += 1
